@@ -185,7 +185,27 @@ func abs64(a int64) int64 {
 // Validate says whether d is a *valid* OSM PBF description: the domain over which the
 // faithfulness property (C01) is stated.  Damage hooks, plain nodes, out-of-range
 // indices, unequal column lengths make it invalid.
-func Validate(d *FileDesc) error {
+func Validate(d *FileDesc) error { return validate(d, false) }
+
+// ValidateFormat is Validate with respect to the FORMAT alone: plain (non-dense) Node items are
+// allowed (the decoder under test answers them with an error: known finding "plain-node-group").
+func ValidateFormat(d *FileDesc) error { return validate(d, true) }
+
+// HasPlainNodes: some PrimitiveGroup of the file carries field 1 (`nodes`).
+func HasPlainNodes(d *FileDesc) bool {
+	for _, b := range d.Blocks {
+		for _, g := range b.Groups {
+			for _, it := range g.Items {
+				if it.Node != nil {
+					return true
+				}
+			}
+		}
+	}
+	return false
+}
+
+func validate(d *FileDesc, plainOK bool) error {
 	if h := d.Header; h != nil {
 		if h.Damage != nil {
 			return fmt.Errorf("header: damage")
@@ -197,14 +217,16 @@ func Validate(d *FileDesc) error {
 		}
 	}
 	for bi, b := range d.Blocks {
-		if err := ValidateBlock(b); err != nil {
+		if err := validateBlock(b, plainOK); err != nil {
 			return fmt.Errorf("block %d: %v", bi, err)
 		}
 	}
 	return nil
 }
 
-func ValidateBlock(b *Block) error {
+func ValidateBlock(b *Block) error { return validateBlock(b, false) }
+
+func validateBlock(b *Block, plainOK bool) error {
 	if b.Damage != nil {
 		return fmt.Errorf("damage")
 	}
@@ -252,8 +274,8 @@ func ValidateBlock(b *Block) error {
 			if !sidOK(int64(t.K)) || !sidOK(int64(t.V)) {
 				return fmt.Errorf("tag index out of range")
 			}
-			if nonzero && (t.K == 0 || t.V == 0) {
-				return fmt.Errorf("dense tag uses index 0 (the delimiter)")
+			if nonzero && t.K == 0 { // a VALUE index 0 (the empty string) is fine: only a key 0 ends the node's list
+				return fmt.Errorf("dense tag key uses index 0 (the delimiter)")
 			}
 		}
 		return nil
@@ -264,7 +286,19 @@ func ValidateBlock(b *Block) error {
 			where := fmt.Sprintf("group %d item %d: ", gi, ii)
 			switch {
 			case it.Node != nil:
-				return fmt.Errorf(where + "plain node (not supported by the decoder)")
+				if !plainOK {
+					return fmt.Errorf(where + "plain node (not supported by the decoder)")
+				}
+				n := it.Node
+				if !coordOK(b.LatOff(), n.Lat) || !coordOK(b.LonOff(), n.Lon) {
+					return fmt.Errorf(where + "coordinate out of range")
+				}
+				if err := infoOK(n.HasInfo, n.Fields, n.Info); err != nil {
+					return fmt.Errorf(where+"%v", err)
+				}
+				if err := tagsOK(n.Tags, false); err != nil {
+					return fmt.Errorf(where+"%v", err)
+				}
 			case it.Dense != nil:
 				d := it.Dense
 				if d.OmitIDs || d.OmitLats || d.OmitLons || len(d.Trim) > 0 {
